@@ -80,6 +80,8 @@ func init() {
 	registerDomain("shp", []string{"T"}, idxSort, `(assert (forall ((t T) (k Int)) (! (= (select (shp t) k) (dim t k)) :pattern ((select (shp t) k)))))`, "dim")
 	registerDomain("unval", []string{"T", "Int"}, idxSort, "")
 	registerDomain("unvalK", []string{idxSort, "Int", "Int"}, idxSort, "") // digits of p over the sizes S[0..k) (spec axiom unvalDef)
+	// cnt(A, lo, hi): number of leaves of a tree with the sizes A[lo..hi) (spec axiom cntDef)
+	registerDomain("cnt", []string{idxSort, "Int", "Int"}, "Int", "")
 	// projA(t, S, m, J): proj against a target shape given as an array S of rank m (no result tensor yet)
 	registerDomain("projA", []string{"T", idxSort, "Int", idxSort}, idxSort,
 		`(assert (forall ((t T) (S (Array Int Int)) (m Int) (J (Array Int Int)) (k Int)) (! (=> (and (<= 0 k) (< k (rank t))) (= (select (projA t S m J) k) (ite (= (dim t k) (select S (+ k (- m (rank t))))) (select J (+ k (- m (rank t)))) 0))) :pattern ((select (projA t S m J) k)))))`, "rank", "dim")
